@@ -128,13 +128,15 @@ def search(ctx, focus=None):
                 break
     # (b) two threads, cold start: every first-use-only line of A as the preemption point + sampled others
     cold_jobs = []
-    for a in [SVG, docs[1]] + ([rng.choice(docs)] if ctx.thorough else []):
+    for a in [SVG, docs[1], docs[2]] + ([rng.choice(docs)] if ctx.thorough else []):
         info = job({"mode": "coldlines", "doc": H(a)})
         points = list(info["cold"][: ctx.n(40, 400)])
         nlines = info["n"]
         points += sorted(rng.sample(range(1, max(2, nlines)), min(ctx.n(8, 80), max(1, nlines - 1))))
-        for k in points:
-            b = rng.choice([a, a, rng.choice(docs)])
+        for idx, k in enumerate(points):
+            # the other thread: the same document, the document whose dates only the LATER alternatives of a handler accept (a partially
+            # initialised table answers those wrongly), or any document -- in turn, so that every first-use-only line meets each kind
+            b = (a, docs[2], rng.choice(docs))[idx % 3]
             cold_jobs.append({"a": a, "b": b, "segments": [k]})
         for _ in range(ctx.n(3, 40)):          # multi-preemption samples
             segs = [rng.randint(1, max(2, nlines // 3)) for _ in range(rng.randint(2, 6))]
